@@ -272,8 +272,9 @@ func negotiateFeatures(ctx context.Context, s *Session, first, ws bool, features
 		s.negotiated[data.feature.Name.Space] = struct{}{}
 
 		// If we negotiated a required feature or a stream restart is required
-		// we're done with this feature set.
-		if rw != nil || data.req {
+		// we're done with this feature set. A feature that failed ends negotiation
+		// too, whether it was required or not: its error is returned below.
+		if rw != nil || data.req || err != nil {
 			break
 		}
 	}
